@@ -108,6 +108,7 @@ type World struct {
 	OnOut func(rc *RConn)
 
 	hookHits [16]atomic.Int64
+	upByAddr map[netip.Addr]int
 	monIDs   atomic.Int64
 	Trans    []TransRec
 }
@@ -229,6 +230,25 @@ func (w *World) logLine(s string) {
 		return
 	}
 	w.Log.Add("log", "", -1, s, "")
+}
+
+// addrUp adjusts and returns the number of Established sessions (as seen by
+// the plugins) for one peer address across all monitor generations.
+func (w *World) addrUp(a netip.Addr, d int) int {
+	w.mu.Lock()
+	defer w.mu.Unlock()
+	if w.upByAddr == nil {
+		w.upByAddr = map[netip.Addr]int{}
+	}
+	w.upByAddr[a] += d
+	return w.upByAddr[a]
+}
+
+// TransSnapshot returns a copy of the transition log so far.
+func (w *World) TransSnapshot() []TransRec {
+	w.mu.Lock()
+	defer w.mu.Unlock()
+	return append([]TransRec(nil), w.Trans...)
 }
 
 // Now is the virtual time since the world started.
